@@ -1,7 +1,7 @@
 //vp:property C01
 //vp:pkg ./tsdb
 //vp:roots ./storage ./tsdb/chunkenc ./tsdb/chunks ./tsdb/tombstones ./tsdb/index ./model/labels ./model/histogram
-//vp:bounds read path kernel (newBlockSeriesSet -> blockBaseSeriesSet.Next -> blockSeriesEntry.Iterator -> populateWithDelSeriesIterator / DeletedIterator / Intervals.Add): one series stored as k<=2 chunks of 1..2 float samples (thorough 1..3) in a block-like reader, j<=1 tombstone intervals (thorough 2), arbitrary closed query range [mint, maxt], all timestamps symbolic (chunk i entirely before chunk i+1, |t|<=2^62), interval bounds and query bounds full int64, values arbitrary bits; result drained with Next, or Seek(x) then Next
+//vp:bounds read path kernel (newBlockSeriesSet -> blockBaseSeriesSet.Next -> blockSeriesEntry.Iterator -> populateWithDelSeriesIterator / DeletedIterator / Intervals.Add): one series stored as k<=2 chunks of 1..2 float samples (a single chunk: 1..3; thorough 1..3 throughout) in a block-like reader, j<=1 tombstone intervals (thorough 2), arbitrary closed query range [mint, maxt], all timestamps symbolic (chunk i entirely before chunk i+1, |t|<=2^62), interval bounds and query bounds full int64, values arbitrary bits; result drained with Next, or Seek(x) then Next
 //vp:assume chunk metas carry MinTime/MaxTime equal to their first/last sample; tombstone intervals canonical (sorted, non-overlapping, non-adjacent); harness index/chunk/tombstone readers return exactly the stored data
 package tsdb
 
@@ -103,6 +103,9 @@ func vpXSetup() (all []vpXS, ivs tombstones.Intervals, mint, maxt int64, it chun
 		nHi, jHi = 3, 2
 	}
 	k := vpShape("chunks", 1, 2)
+	if !vpThorough() && k == 1 {
+		nHi = 3 // quick: a single chunk may hold 3 samples (a sample strictly between the range end and a later tombstone)
+	}
 	idx := &vpXIndex{}
 	cr := &vpXChunks{byRef: map[chunks.ChunkRef]*vpXChunk{}}
 	var prev int64
